@@ -22,6 +22,7 @@ RULE = (
     "valid record. CSV reading: files produced with the stdlib writer (delimiter in , ; tab |, safe cells, >=2 "
     "columns and rows, kept only if the stdlib Sniffer recovers the delimiter) read back as records with the same "
     "text values. Non-trivial = >=1 record with a non-None field; distinct by case digest."
+    " Also: CSV headers named like Python keywords."
 )
 ASSUMPTIONS = [
     "'text form' of a value is str(value) / format(value, spec) of the field value itself",
